@@ -672,6 +672,12 @@ func runSweep(t *testing.T, tape *simrt.Tape, opt worker.Options) *worker.Outcom
 	for i := 1; i <= r0.tr.nRecv; i++ {
 		cases = append(cases, faultCase{"recv_err", i}, faultCase{"recv_eof", i})
 	}
+	// ... and the same receive faults on a transport whose Close then fails as well (a connection
+	// the peer has reset): the receive loop starts the teardown, Transport.Close returns an error,
+	// and Close / Done must still complete
+	for i := 1; i <= r0.tr.nRecv; i++ {
+		cases = append(cases, faultCase{"recv_err_cl", i}, faultCase{"recv_eof_cl", i})
+	}
 	if r0.pipe != nil {
 		cases = nil
 		for i := 1; i <= r0.pipe.nWrite; i++ {
@@ -714,7 +720,7 @@ func runSweep(t *testing.T, tape *simrt.Tape, opt worker.Options) *worker.Outcom
 		agg.Ops++
 		for k, v := range oc.Faults {
 			agg.Faults[k] += v
-			if k == fc.kind || (k == "close" && fc.kind == "close2") {
+			if k == strings.TrimSuffix(fc.kind, "_cl") || (k == "close" && fc.kind == "close2") {
 				fired++
 			}
 		}
@@ -753,7 +759,10 @@ func (r *run) mainTask() {
 	}
 	gone := false
 	r.tr = &SimTransport{name: "conn", s: s, inbox: &r.toConn, outbox: &r.toPeer, peerGone: &gone, onRecv: r.peer.delivered}
-	switch r.fault.kind {
+	if strings.HasSuffix(r.fault.kind, "_cl") {
+		r.tr.plan.closeErr = true
+	}
+	switch strings.TrimSuffix(r.fault.kind, "_cl") {
 	case "newmsg_err":
 		r.tr.plan.newMsgErrAt = r.fault.at
 	case "send_err":
@@ -817,16 +826,22 @@ func (r *run) mainTask() {
 	}
 	r.ncallers = s.Choice("ncallers", 3)
 	r.desc = append(r.desc, fmt.Sprintf("topology "+topo+": peer budget %d, %d local callers, %d app caps", r.peerBudget, r.ncallers, len(r.apps)))
+	// (once the application has called Close, a slow call that the peer made is the Conn's to
+	// cancel - every incoming call's context ends with the connection; the environment only goes
+	// on releasing calls that local callers made, which may have been served without the Conn)
+	helps := func(ac *appCall) bool {
+		return ac.waiting && !ac.release && !(r.closed && r.locals[ac.token] == nil)
+	}
 	s.AddEvent("release-slow-call", func() bool {
 		for _, ac := range r.started {
-			if ac.waiting && !ac.release {
+			if helps(ac) {
 				return true
 			}
 		}
 		return false
 	}, func() {
 		for _, ac := range r.started {
-			if ac.waiting && !ac.release {
+			if helps(ac) {
 				ac.release = true
 				return
 			}
